@@ -59,3 +59,45 @@ def fallible_except_contained(P: Project, f: FuncInfo, extra_total: Optional[Cal
         return set()
 
     return pred
+
+
+def predicate_inliner(P: Project, f: FuncInfo, depth: int = 2):
+    """Returns `inline(call)`: if `call` (in `f`) resolves to a package function whose body is a single
+    `return <expr>` over its parameters, the expression with the arguments substituted, else None.
+    Lets a guard extracted into a small predicate helper be read like the inline guard."""
+    import copy
+
+    def inline(call: ast.Call, d: int = depth):
+        if d <= 0 or call.keywords and any(k.arg is None for k in call.keywords):
+            return None
+        g = P.resolve_call(f, call)
+        if not isinstance(g, FuncInfo) or g is f:
+            return None
+        body = [s for s in g.node.body if not (isinstance(s, ast.Expr) and isinstance(s.value, ast.Constant))]
+        if len(body) != 1 or not isinstance(body[0], ast.Return) or body[0].value is None:
+            return None
+        params = [p for p in g.positional_params() if p not in ("self", "cls")]
+        if any(isinstance(a, ast.Starred) for a in call.args) or len(call.args) > len(params):
+            return None
+        binding = dict(zip(params, call.args))
+        for k in call.keywords:
+            binding[k.arg] = k.value
+        for p in params:
+            if p not in binding:
+                dflt = g.param_default(p)
+                if dflt is None:
+                    return None
+                binding[p] = dflt
+        expr = copy.deepcopy(body[0].value)
+        if any(isinstance(n, (ast.Await, ast.Yield, ast.Lambda)) for n in ast.walk(expr)):
+            return None
+
+        class Sub(ast.NodeTransformer):
+            def visit_Name(self, n):
+                if isinstance(n.ctx, ast.Load) and n.id in binding:
+                    return copy.deepcopy(binding[n.id])
+                return n
+
+        return ast.fix_missing_locations(Sub().visit(expr))
+
+    return inline
